@@ -144,11 +144,14 @@ def run(res, tier, seed):
     # ---------- through the readers: channel 3a active for a part of the pass (its target / space readings are then low) ----------
     import datetime
     import l1b
-    for fmt, sc in (("gac_klm", "noaa16"), ("lac_klm", "metopa"), ("gac_pod", "noaa14"), ("lac_pod", "noaa12")):
+    for fmt, sc, whole in (("gac_klm", "noaa16", False), ("lac_klm", "metopa", False), ("gac_pod", "noaa14", False), ("lac_pod", "noaa12", False),
+                           ("gac_klm", "noaa17", True)):     # last: 3a during the whole pass (a day-side pass): channels 4 and 5 as usual
         co = co_all[sc]
         pod = l1b.FMT[fmt]["family"] == "pod"
         n = 300 if fmt == "gac_klm" else 120
         seg = range(n // 3, 2 * n // 3) if not pod else range(0)      # (POD: channel 3 is always the thermal one)
+        if whole:
+            n, seg = 120, range(120)
         first, residue = rng.choice([1, 2, 3, 4, 5]), rng.randrange(5)
         lns = list(range(first, first + n))
         tgt = rng.choice([288.0, 295.0, 301.0])
@@ -159,7 +162,7 @@ def run(res, tier, seed):
         samples = []
         for p_ in range(W):
             samples += [300, 310, cbb[0] if p_ == 0 else 400 + p_ % 500, cbb[1] if p_ == 0 else 350 + p_ % 400, cbb[2] if p_ == 0 else 360 + p_ % 380]
-        start = datetime.datetime(2003, 3, 4, 5, 6, 7) if sc == "noaa16" else (datetime.datetime(1996, 3, 4, 5, 6, 7) if pod else datetime.datetime(2010, 3, 4, 5, 6, 7))
+        start = datetime.datetime(2003, 3, 4, 5, 6, 7) if sc in ("noaa16", "noaa17") else (datetime.datetime(1996, 3, 4, 5, 6, 7) if pod else datetime.datetime(2010, 3, 4, 5, 6, 7))
         flagged = range(18, 24)      # six lines without earth location: blanked themselves, but their telemetry is valid and used
         lines = l1b.default_lines(fmt, n, start, numbers=lns, counts=samples, switch=[1 if i in seg else 0 for i in range(n)],
                                   qual=[(1 << (26 if pod else 27)) if i in flagged else 0 for i in range(n)])
